@@ -67,6 +67,11 @@ type In struct {
 	FailSync  []int  `json:"fail_sync"`  // plugins whose Synchronize handler returns an error (never activated)
 	DblPct    int    `json:"dbl_pct"`    // percentage of blocks released twice: `defer b.Unblock()` + an explicit early Unblock()
 	Seed      int64  `json:"seed"`
+	// Events goroutines send StartContainer events OUTSIDE any sync block (as a runtime does for
+	// everything but creations) while plugins register; every plugin dwells EventDwellUs in its
+	// handler, so that registrations complete while such an event is in flight
+	Events       int `json:"events"`
+	EventDwellUs int `json:"event_dwell_us"`
 }
 
 type SyncObs struct {
@@ -338,6 +343,11 @@ func runCase(in In, dir string, j *rt.Journal) (obs Obs) {
 				}
 				return nil
 			},
+			Start: func(*api.PodSandbox, *api.Container) {
+				if in.EventDwellUs > 0 {
+					time.Sleep(time.Duration(in.EventDwellUs) * time.Microsecond)
+				}
+			},
 			Create: func(_ *api.PodSandbox, c *api.Container) {
 				e.j.Put(jPlugGot, 0, int64(i), cid(c.Id))
 				pmu[i].Lock()
@@ -401,6 +411,20 @@ func runCase(in In, dir string, j *rt.Journal) (obs Obs) {
 	}
 	clogs := make([][][]int64, in.G)
 	startCreators := func() {
+		for k := 0; k < in.Events; k++ {
+			wgU.Add(1)
+			go func() {
+				defer wgU.Done()
+				ev := &api.StateChangeEvent{Pod: e.pod, Container: rt.Ctr("ev", "pod0")}
+				for !stopU.Load() {
+					if err := e.rt.A.StartContainer(context.Background(), ev); err != nil {
+						e.errs.Add(1)
+						e.note.Store("StartContainer: " + err.Error())
+						return
+					}
+				}
+			}()
+		}
 		for g := 0; g < in.G; g++ {
 			g := g
 			wgC.Add(1)
@@ -579,6 +603,10 @@ func generate(o *hx.Opts) []In {
 		}
 		if r.Intn(4) == 0 {
 			in.SyncLagUs = []int{50, 200, 1000}[r.Intn(3)]
+		}
+		if i%3 == 1 {
+			in.Events = 1 + r.Intn(2)
+			in.EventDwellUs = []int{100, 500, 2000}[r.Intn(3)]
 		}
 		if r.Intn(3) == 0 {
 			in.DblPct = []int{5, 20, 50}[r.Intn(3)]
